@@ -42,6 +42,15 @@ LOCS = [
     ("in-hash-value", ["(define h (hash 'k {MK:41}))", "(churn)", "(churnv)", "{RD:(hash-ref h 'k)}"], "(i 41)"),
     ("in-hashset-of-list", ["(define h (hash 'k (list {MK:41})))", "(churn)", "{RD:(car (hash-ref h 'k))}"], "(i 41)"),
     ("in-struct", ["(struct Im (f))", "(define s (Im {MK:41}))", "(churn)", "(churnv)", "{RD:(Im-f s)}"], "(i 41)"),
+    ("in-hash-key", ["(define h (hash {MK:41} 'v))", "(churn)", "(churnv)", "{RD:(car (hash-keys->list h))}"], "(i 41)"),
+    ("in-hashset-member", ["(define h (hashset {MK:41}))", "(churn)", "(churnv)", "{RD:(car (hashset->list h))}"], "(i 41)"),
+    ("in-hash-key-nested", ["(define h (hash 'outer (hash (list {MK:41}) 'v)))", "(churn)", "(churnv)", "{RD:(car (car (hash-keys->list (hash-ref h 'outer))))}"], "(i 41)"),
+    ("in-list-in-vector-in-box", ["(define bb (box (vector (list 0 {MK:41}))))", "(churn)", "(churnv)", "{RD:(car (cdr (vector-ref (unbox bb) 0)))}"], "(i 41)"),
+    ("tls-main", ["(define t (make-tls 0))", "(set-tls! t {MK:41})", "(churn)", "(churnv)", "(#%gc-collect)", "{RD:(get-tls t)}"], "(i 41)"),
+    ("tls-other-thread", ["(define t (make-tls 0))", "(define c1 (channels/new))", "(define c2 (channels/new))",
+                          "(define th (spawn-native-thread (lambda () (set-tls! t {MK:41}) (channel/send (channels-sender c1) 'made) (channel/recv (channels-receiver c2)) {RD:(get-tls t)})))",
+                          "(channel/recv (channels-receiver c1))", "(churn)", "(churnv)", "(#%gc-collect)", "(churn)", "(channel/send (channels-sender c2) 'go)", "(thread-join! th)"], "(i 41)"),
+    ("exception-handler-installed", ["(call-with-exception-handler (let ((b {MK:41})) (lambda (e) {RD:b})) (lambda () (churn) (churnv) (#%gc-collect) (churn) (car 1)))"], "(i 41)"),
     ("in-box", ["(define bb (box {MK:41}))", "(churn)", "(churnv)", "{RD:(unbox bb)}"], "(i 41)"),
     ("in-mstruct-cycle", ["(define a (Cell 0))", "(define bx {MK:41})", "(set-Cell-v! a (list a bx))", "(set! bx #f)", "(churn)", "(churnv)", "{RD:(car (cdr (Cell-v a)))}"], "(i 41)"),
     ("map-callback", ["(map (lambda (i) (let ((b {MK:41})) (churn) (churnv) (+ i {RD:b}))) (list 1 2 3))"], "(lst (i 42) (i 43) (i 44))"),
@@ -144,8 +153,10 @@ def main(argv=None):
     nruns = sum(r[1] for r in results)
     nalloc = sum(r[2] for r in results)
     seen = set()
-    for r in results:
-        for name, why, prog, want, got in r[3]:
+    korder = {k[0]: i for i, k in enumerate(KINDS)}
+    allf = sorted([f for r in results for f in r[3]], key=lambda f: (f[0].split("/")[0], korder.get(f[0].split("/")[1], 9), f[1]))
+    for _once in (1,):
+        for name, why, prog, want, got in allf:
             loc = name.split("/")[0]
             key = (loc, got.split(":")[0] if got.startswith(("ERR", "CRASH", "PANIC")) else "value")
             if key in seen:
